@@ -61,6 +61,15 @@ RULE = ("a case is a call history on ONE FFT object (`fft <f64|f32> ; op ; … ;
         "10 taking the block loop, both operand orders, lengths 0..=|a|+|b|+1, histogram `dest-sweep:mi:blocks:dest<long,inside-block` "
         "etc.), fmi / fx / ii / fi for transform sizes 1..16 with lengths 0..=n+2, 2n, 2n+1; stream `unbalanced`: ALL block-relative "
         "destination classes (not a choice of three) for every shape up to 700 terms. "
+        "Wave 5 (after seeded C04_m14: a squaring fast path in multiply_into keyed on `a.as_ptr() == b.as_ptr()`, wrong for a slice and "
+        "a prefix of it): ALIASED operands - a flag `al<o>` in front of a two-operand call (m, mi, fm, fmx, fmi) makes the harness pass "
+        "a and b as slices of ONE buffer, b starting o entries after a (before, for o < 0), whenever their contents agree on the "
+        "overlap (otherwise separate vectors); the model and the specification know no addresses (the driver drops the flag), so the "
+        "expected answer is the one for separate copies, and `fresh=same` compares with the same call on a brand-new object that gets "
+        "SEPARATE copies; stream `aliased` (both profiles): the very same slice, prefix (same start address, different lengths), "
+        "suffix, inner sub-slice, partly overlapping slices, neighbouring parts of one allocation, both operand orders, all pairs "
+        "|b| <= |a| <= 6 and 15 larger shapes up to 1000 x 7 / 512 x 512 (quick; 8192 x 16, 65536 x 3 thorough) incl. shapes that "
+        "take the block loop, every history / constructor kind, pool cases (histogram `aliased:*`). "
         "non-trivial = distinct in-domain case whose last call carries at least 3 coefficients")
 ASSUMPTIONS = [
     "the Lean model of rlib_fft is hand-written; it is tied to the code by running both on the same call histories",
@@ -78,6 +87,8 @@ ASSUMPTIONS = [
     "a second time); it is there for debug_assert! / cfg(debug_assertions) code in rlib_fft - overflow checks are on in both profiles; "
     "calls that violate a precondition fft.rs states as debug_assert! (fft_into with |v| > n, fft_inv_into of an empty or non-power-of-two "
     "spectrum) are made in neither profile (`valid`); the Lean model has no profile: it is the specification both builds must meet",
+    "aliasing of the OPERANDS with each other is exercised (`al<o>`); aliasing of an operand with the destination of a *_into call is "
+    "ruled out by the borrow checker (`&[i32]` / `&mut [i64]`, different element types) and is not a case",
     "the envelope rule for spectral expressions (`SExpr.weight`) is the engine's reading of the property for expressions with more than "
     "one product: conservative (sums add, every product charged max^2*min), a single product is the literal envelope",
 ]
@@ -187,6 +198,8 @@ def _last_tokens(case):
     """tokens of the measured (last) step without its `@k` object prefix"""
     last = case.rsplit(";", 1)[-1].split()
     if last and last[0].startswith("@"):
+        last = last[1:]
+    if last and re.fullmatch(r"al-?\d+", last[0]):      # aliased operands: a flag for the harness only
         last = last[1:]
     return last
 
